@@ -189,6 +189,18 @@ def known_pattern(scn, obs):
     return False
 
 
+def double_wipe(scn, obs):
+    """the recorded finding: two successful requests both clear (empty allocations) the same consumer"""
+    wipers = collections.Counter()
+    for op, o in zip(scn.requests, obs):
+        if o[0] < 300:
+            cs = [op[2]] if op[0] == 'alloc_put' else (op[2] if op[0] == 'alloc_post' else (op[3] if op[0] == 'reshape' else []))
+            for c in cs:
+                if not c['allocs']:
+                    wipers[c['uuid']] += 1
+    return any(n > 1 for n in wipers.values())
+
+
 def my_oracle(pid, scn, obs, dump):
     v = []
     for i, o in enumerate(obs):
@@ -270,7 +282,10 @@ def run(pid, tier, out):
                 samples.append({'scenario': scn.to_json(), 'schedule': list(used), 'statuses': list(sts)})
             for kind, text in my_oracle(pid, scn, obs, dump):
                 if kind == 'nonserializable' and known_pattern(scn, obs) and pid in ('C06', 'C07'):
-                    known[pid] += 1
+                    known[(pid, 'success-on-consumer-created-by-failed-request')] += 1
+                    continue
+                if kind in ('nonserializable', 'at-most-one') and double_wipe(scn, obs) and pid in ('C06', 'C07'):
+                    known[(pid, 'double-wipe')] += 1
                     continue
                 viols.append(({'kind': 'schedule', 'scenario': scn.to_json(), 'schedule': list(used),
                                'statuses': list(sts), 'check': kind}, text))
@@ -290,8 +305,9 @@ def run(pid, tier, out):
     tie_broken = bool(disagreements) or corr_error is not None
 
     for f in common.load_known():
-        if f.get('kind') == 'known' and f.get('property') == pid and known[pid]:
-            out.known_finding('%s [%d schedules]' % (f['what'], known[pid]))
+        pat = f.get('match', {}).get('pattern')
+        if f.get('kind') == 'known' and f.get('property') == pid and known[(pid, pat)]:
+            out.known_finding('%s [%d schedules]' % (f['what'], known[(pid, pat)]))
     seen = set()
     for payload, text in viols:
         key = (payload['scenario']['name'], payload['check'])
@@ -337,7 +353,7 @@ def run(pid, tier, out):
            'samples': samples, 'traces_validated_against_impl': len(cases) - len(disagreements) if model_ok and not corr_error else 0,
            'model_impl_disagreements': len(disagreements), 'correspondence_error': corr_error,
            'outcome_histogram': {str(k): v for k, v in stats['outcomes'].most_common(12)},
-           'op_histogram': dict(stats['ops']), 'known_finding_schedules': dict(known)}
+           'op_histogram': dict(stats['ops']), 'known_finding_schedules': {'%s/%s' % k: v for k, v in known.items()}}
     common.write_evidence(pid, tier, 'proof', cov, t.s(), len(out.violations),
                           assumptions=['transactions atomic and isolated (serializable DBMS)'])
 
@@ -354,5 +370,6 @@ def replay(pid, path, out):
                         [tuple(g) for g in s['guards']])
     obs, dump, trace, used = conc.run_schedule(scn, p['schedule'])
     for kind, text in my_oracle(pid, scn, obs, dump):
-        if kind == p.get('check') and not (kind == 'nonserializable' and known_pattern(scn, obs)):
+        if kind == p.get('check') and not (kind == 'nonserializable' and known_pattern(scn, obs)) \
+                and not double_wipe(scn, obs):
             out.violation(p, text)
